@@ -361,6 +361,17 @@ EnvAt(P, t) ==
                   IN  CompVal(P, i, t, 5)]
 
 CxAt(P, t) == Cx(P, EnvAt(P, t), NoLoc)
+
+(* structural environment: only the pinned components (what sizes arrays, loops and subscripts) *)
+SEnv(P) == LET S == {i \in DOMAIN P.comps : Pinned(P.comps[i])}
+           IN  [x \in {P.comps[i].name : i \in S} |-> CompVal(P, CHOOSE i \in S : P.comps[i].name = x, 1, 0)]
+
+(* a slice lo:hi with lo > hi selects nothing whatever the declared size; whether such a program must be
+   rejected when lo or hi lie outside 1..n is not something the properties decide: "either" is accepted *)
+RECURSIVE EmptySliceIn(_)
+EmptySliceIn(e) == (e.k = "slice" /\ e.a[1].k = "lit" /\ e.a[2].k = "lit" /\ RLt(e.a[2].v, e.a[1].v))
+                   \/ \E i \in DOMAIN e.a : EmptySliceIn(e.a[i])
+HasEmptySlice(P) == (\E i \in DOMAIN P.eqs : EmptySliceIn(P.eqs[i])) \/ (\E j \in DOMAIN P.ieqs : EmptySliceIn(P.ieqs[j]))
 DaeBlocks(P, t)  == Blocks(P.eqs, CxAt(P, t))
 InitBlocks(P, t) == Blocks(P.ieqs, CxAt(P, t))
 
